@@ -165,7 +165,7 @@ META = {
                    "others over other-axis overlap patterns (identical, permuted, partially missing, missing+new, disjoint, zero-length; an operand without any id on the concatenated axis), with/without metadata; "
                    "result compared term-by-term with block placement + zero padding; totals; non-disjoint operand sets must raise DisjointIDError.",
     'encoded': {'biom/table.py': ['concat', 'sort_order', '__init__', 'metadata', 'ids', '_invert_axis'], 'biom/__init__.py': ['concat']},
-    'bounds': {'quick': {'operands': 'k=2 (all configs), k=3 (2 configs); 2x2 first operand in all representations, others 2x2 / 1x2 dense'},
+    'bounds': {'quick': {'operands': 'k=1, k=2 (all configs), k=3 (2 configs); 2x2 first operand in all representations (3x2 / 2x3 for rotated other-axis orders), others 2x2 / 1x2 dense, also with a zero-length axis'},
                'thorough': {'operands': 'k=2,3 all configs'}},
     'outside': ['other-axis order and other-axis metadata (not constrained by the property)', 'k>3', 'larger operands'],
     'assumptions': ['scipy.sparse model incl. vstack/hstack fast paths (validated each run)'],
